@@ -25,7 +25,7 @@ pub struct C03;
 
 pub fn is_source_ret(i: &Ins) -> bool {
     match (i.mn.as_str(), i.ops.as_slice()) {
-        ("ret", _) => true,
+        ("ret", _) | ("uret", _) => true,
         ("jr", [Opd::R(1)]) => true,
         ("jalr", [Opd::R(0), Opd::R(1), Opd::I(0)]) => true,
         ("jalr", [Opd::R(0), Opd::M(0, 1)]) => true,
